@@ -298,8 +298,25 @@ def property_sublists(py, cls: str) -> Dict[str, Set[str]]:
 
 
 # ------------------------------------------------------------------------------ R1
+def render_premise(py) -> tuple:
+    """conditions under which main() exits before anything is rendered, negated:
+    `if len(project.files) < 1: ... sys.exit(1)`  =>  premise n(files) >= 1."""
+    fn = py.func("__init__.main")
+    prem = ("const", True)
+    for st in fn.body:
+        if isinstance(st, ast.If) and any(
+                isinstance(c, ast.Call) and call_name(c) in ("sys.exit", "exit") for c in ast.walk(st)):
+            try:
+                prem = ("and", prem, ("not", py_pred(st.test)))
+            except AnalysisError:
+                continue
+    return prem
+
+
 def r1_list_pages(ctx, rep):
     py, j = ctx.py, ctx.j
+    premise = render_premise(py)
+    rep.note(f"premise from main(): {p_show(premise)}")
     tests = jinja_tests(py)
     if "more_than_one" not in tests:
         raise AnalysisError("jinja test more_than_one not found in output.py")
@@ -316,7 +333,7 @@ def r1_list_pages(ctx, rep):
             if page not in pages:
                 rep.ob(construct, False, f"no ListPage with out_page {page!r} is ever created", loc)
                 continue
-            guard = guard_of(lit.conds, tests)
+            guard = ("and", premise, guard_of(lit.conds, tests))
             goal = pages[page][0]
             cex = implies(guard, goal)
             rep.ob(construct, cex is None,
@@ -331,7 +348,7 @@ def r1_list_pages(ctx, rep):
         if not m:
             continue
         coll, k = m.group(1), int(m.group(2))
-        guard = guard_of(o.conds, tests)
+        guard = ("and", premise, guard_of(o.conds, tests))
         goal = ("cmp", ">", ("len", coll), ("const", k))
         pagecond = None
         for lst, cond in epm.items():
